@@ -46,7 +46,7 @@ func LalrK(r *rand.Rand) *PGrammar {
 		midLen = r.Intn(5)
 	}
 	type midEl struct {
-		kind int // 0 terminal, 1 nonterminal deriving one terminal, 2 nullable nonterminal, 3 nonterminal deriving two terminals
+		kind  int // 0 terminal, 1 nonterminal deriving one terminal, 2 nullable nonterminal, 3 nonterminal deriving two terminals
 		t, t2 cfg.Sym
 	}
 	var mid []midEl
